@@ -24,7 +24,7 @@ AGGT = ["total", "max", "min", "mean"]
 
 
 def shapes(tier):
-    nmax = 4 if tier == "quick" else 5
+    nmax = 4 if tier == "quick" else 6
     out = []
     for n in range(0, nmax + 1):
         for seq in itertools.product(range(4), repeat=n):
@@ -370,7 +370,7 @@ def run(tier):
         rep.candidate(sig, {"seq": list(seq), "env": env}, "population %s: %s" % ([COMBOS[c] for c in seq], {k: info[k] for k in what}))
     rep.assume("property values are reals (Integer properties too); max/min in the collector namespace are ITE stubs with Python semantics",
                "agents of one type share one property set (as agent factories produce them)",
-               "populations <= %d agents over 2 types x 2 states, 2 recorded times with state changes" % (4 if tier == "quick" else 5))
+               "populations <= %d agents over 2 types x 2 states, 2 recorded times with state changes" % (4 if tier == "quick" else 6))
     rep.coverage.update({"states": len(sh) + part2, "run_scenarios_cases": part2, "transitions": cells_total, "traces_validated_against_impl": len(bad),
                          "samples": samples, "verdicts": counts, "exhaustive": True,
                          "explanation": "states = population shapes explored; transitions = statistic cells (solver obligations) decided",
